@@ -155,7 +155,7 @@ def prep_worker(fam):
     def conf2(cfg):
         conf(cfg)
         cfg.sym_classes.pop(("self",), None)
-        cfg.watch_calls = {"._prepare_items"}
+        cfg.watch_calls = {"." + n_ for n_ in _item_hooks(ctx, ci, fi)}
         cfg.guard_pred = lambda k: k[0] in ("check", "truthy", "isinstance")
     it, outs = run_function(ctx.p, ctx.H, fi, [Ref(addr)], {}, configure=conf2, state=st, family=fam)
     rows = []
@@ -181,6 +181,21 @@ def prep_worker(fam):
                      "items_prepared": any(e[0] == "CALL" for e in o.state.trace),
                      "desc": describe_path(o, 6)})
     return {"fam": fam, "rows": rows, "paths": len(outs), "functions": sorted(it.functions_entered)}
+
+
+def _item_hooks(ctx, ci, prepare_fi):
+    """Names of the per-family hooks `prepare` calls on self: private methods without arguments that the family's
+    mutator class (or one of its bases below the class defining `prepare`) overrides."""
+    out = set()
+    for n in walk_own(prepare_fi.node):
+        if isinstance(n, ast.Call) and isinstance(n.func, ast.Attribute) and isinstance(n.func.value, ast.Name) \
+                and n.func.value.id == "self" and n.func.attr.startswith("_") and not n.args and not n.keywords:
+            r = ctx.p.lookup_method(ci, n.func.attr)
+            if r and r[1] and prepare_fi.cls is not None and r[0] is not prepare_fi.cls:
+                out.add(n.func.attr)
+    if not out:
+        raise AnalysisError(f"C03.PREP: {prepare_fi.qualname} calls no per-family item hook on self")
+    return out
 
 
 RAW_ALLOWED = {
